@@ -181,7 +181,7 @@ Hputelement(int32 file_id, uint16 tag, uint16 ref, const uint8 *data, int32 leng
 {
     H4V_CHECK(g_frec != NULL && (g_frec->access & DFACC_WRITE), "C14: a vgroup is written to a file opened read-only");
     H4V_CHECK(data != NULL && length > 0, "Hputelement: a record of positive length");
-#if defined(H4V_CBMC) && !defined(T_NOROK)
+#ifdef H4V_CBMC
     __CPROVER_assert(__CPROVER_r_ok(data, (size_t)length), "H4V: Hputelement: the record lies inside the buffer");
 #endif
     g_put_n++;
@@ -191,9 +191,7 @@ Hputelement(int32 file_id, uint16 tag, uint16 ref, const uint8 *data, int32 leng
     g_put_ref  = ref;
     g_put_data = data;
     g_put_len  = length;
-#ifndef T_NOBYTE
     g_put_byte = (length > 0 && g_c < (size_t)length) ? data[g_c] : 0;
-#endif
     if (g_put_may_fail) {
         H4V_ND(int, put_fault);
         if (put_fault) {
@@ -600,7 +598,7 @@ h_Vdetach(void)
     int32 r          = Vdetach(vkey);
     H4V_COVER(r == SUCCEED && old_marked == 1 && g_put_n == 1 && old_new == 0 && g_reuse_n == 1 && g_vg->nvelt > 70, "Vdetach rewrites an existing group");
     H4V_COVER(r == SUCCEED && old_marked == 1 && g_put_n == 1 && old_new == 1, "Vdetach writes a new group");
-    H4V_COVER(r == SUCCEED && old_marked == 1 && g_put_n == 1 && old_n > 1, "Vdetach writes while another handle is attached");
+    H4V_COVER(r == SUCCEED && old_marked == 1 && old_n > 1, "Vdetach of an edited group while another handle is attached");
     H4V_COVER(r == SUCCEED && old_marked == 0 && g_put_n == 0, "Vdetach of an unchanged group");
     H4V_COVER(r == FAIL && vkey == L_ID0 && !id_live, "Vdetach stale id");
     H4V_COVER(g_io_failed, "Vdetach write-back fails");
